@@ -450,6 +450,13 @@ def run(tier, seed):
                         nparts = 4 if N * G >= 8 else 1
                         for part in range(nparts):
                             shards.append(("run", name, N, G, nparams, ncosts, streams[0], 1, part, nparts, constraint))
+    # population sizes and generation counts far beyond the explored ones (default execution): sizes around the powers of two
+    # and round numbers at which fast paths would switch on; with and without constraints
+    for name in algs:
+        for (N2, G2) in ((16, 3), (17, 3), (24, 6), (31, 2), (32, 2), (33, 3), (64, 2), (65, 2), (100, 2), (129, 2), (4, 40), (5, 70)) + (((257, 2), (8, 130)) if tier == "thorough" else ()):
+            shards.append(("run", name, N2, G2, 2, 2, streams[0], 0, 0, 1))
+            if name in ("NSGAII", "EpsMOEA") and N2 in (17, 33, 65):
+                shards.append(("run", name, N2, G2, 2, 2, streams[0], 0, 0, 1, "half"))
     shards.append(("two", seed))
     shards.append(("rerun", seed))
     col = run_shards(_shard, shards)
